@@ -175,6 +175,7 @@ theorem unm_lt (regs : List Addr) (m : σ) (a : Addr) (ha : a ∈ regs) (hm : S.
         have p2 : unmarked S m x = true := by simp [unmarked, h2']
         rw [List.countP_cons_of_pos p1, List.countP_cons_of_pos p2]; omega
 
+set_option linter.unusedVariables false in
 /-- **The marker.** `GC_Mark_Item` / `GC_Recurse` as a worklist: `stack` = the words still to be presented to
     `GC_Mark_Item` (depth first: the words of a newly marked object go in front, which is the order of the C
     recursion), `m` = the mark bits.  A word is accepted when it is 8-aligned, within `[minptr, maxptr]` and
@@ -233,6 +234,93 @@ def collect (c : Cfg) (h : Heap) (thread : Obj) (stack : List Word) : Heap × Li
   sweep S h (gcMark S c h thread stack)
 
 end dfs
+
+/-! ### histories: the mutator's operations between collections -/
+
+/-- `alloc` → `GC_Set`: a new entry; the pointer bounds widen; an address that is already registered is left alone
+    (`GC_Set_Ptr` returns when it finds the pointer) -/
+def Heap.register (h : Heap) (a : Addr) (e : Entry) : Heap :=
+  if (h.lookup a).isSome then h else
+  { lookup := fun x => if x = a then some e else h.lookup x
+    regs := a :: h.regs
+    minptr := min h.minptr a
+    maxptr := max h.maxptr a
+    complete := by
+      intro x e' he
+      by_cases hx : x = a
+      · simp [hx]
+      · simp only [hx, if_false] at he
+        exact List.mem_cons_of_mem _ (h.complete x e' he) }
+
+/-- a store into a registered object (pointer store, container insert / remove / rehash): new contents, same entry -/
+def Heap.write (h : Heap) (a : Addr) (o : Obj) : Heap :=
+  { lookup := fun x => if x = a then (h.lookup a).map (fun e => { e with obj := o }) else h.lookup x
+    regs := h.regs
+    minptr := h.minptr
+    maxptr := h.maxptr
+    complete := by
+      intro x e' he
+      by_cases hx : x = a
+      · subst hx
+        simp only [if_true] at he
+        cases hl : h.lookup x with
+        | none => simp [hl] at he
+        | some e0 => exact h.complete x e0 hl
+      · simp only [hx, if_false] at he
+        exact h.complete x e' he }
+
+/-- explicit `del` → `GC_Rem`: the entry leaves the registry -/
+def Heap.remove (h : Heap) (a : Addr) : Heap :=
+  { lookup := fun x => if x = a then none else h.lookup x
+    regs := h.regs.filter (· ≠ a)
+    minptr := h.minptr
+    maxptr := h.maxptr
+    complete := by
+      intro x e' he
+      by_cases hx : x = a
+      · simp [hx] at he
+      · simp only [hx, if_false] at he
+        exact List.mem_filter.mpr ⟨h.complete x e' he, by simpa using hx⟩ }
+
+inductive HOp where
+  | alloc (a : Addr) (e : Entry)
+  | write (a : Addr) (o : Obj)
+  | del (a : Addr)
+  | setThread (t : Obj)            -- set / rem on current(Thread)
+  | setStack (ws : List Word)      -- whatever the stack and registers hold at the next collection
+  | collect                        -- threshold-triggered or forced: GC_Mark; GC_Sweep
+
+structure HState where
+  heap : Heap
+  thread : Obj
+  stack : List Word
+
+/-- one collection of a history: the state it ran on and the pending list it produced -/
+structure Event where
+  before : HState
+  pending : List Addr
+
+def HState.step {σ : Type} (S : MarkSet σ) (c : Cfg) (s : HState) : HOp → HState × Option Event
+  | .alloc a e => ({ s with heap := s.heap.register a e }, none)
+  | .write a o => ({ s with heap := s.heap.write a o }, none)
+  | .del a => ({ s with heap := s.heap.remove a }, none)
+  | .setThread t => ({ s with thread := t }, none)
+  | .setStack ws => ({ s with stack := ws }, none)
+  | .collect =>
+    let r := collect S c s.heap s.thread s.stack
+    ({ s with heap := r.1 }, some ⟨s, r.2⟩)
+
+def HState.run {σ : Type} (S : MarkSet σ) (c : Cfg) : List HOp → HState → HState × List Event
+  | [], s => (s, [])
+  | op :: ops, s =>
+    let (s1, ev) := s.step S c op
+    let (s2, evs) := HState.run S c ops s1
+    (s2, match ev with | some e => e :: evs | none => evs)
+
+/-- what `alloc` returns is 8-aligned (calloc + a header of whole words) -/
+def HOp.ok : HOp → Prop
+  | .alloc a _ => a % 8 = 0
+  | _ => True
 
 /-! ### specification: graph reachability -/
 
